@@ -244,6 +244,7 @@ impl<T: Config> SpectatorSession<T> {
             }
             // disconnect the player, then forward to user
             Event::Disconnected => {
+                self.host.disconnect();
                 self.event_queue.push_back(GgrsEvent::Disconnected { addr });
             }
             // add the input and all associated information
